@@ -80,7 +80,7 @@ public:
             switch (r.weighted({ 70, 10, 8, 6, 6 })) {
             case 0:
                 // sent/received, sender variant, shape
-                p.ops.append(mkop(QStringLiteral("carbon"), { (qint64)r.uniform(2), (qint64)r.uniform(16), r.weighted({ 52, 13, 13, 8, 7, 7 }) }, {}, salt));
+                p.ops.append(mkop(QStringLiteral("carbon"), { (qint64)r.uniform(2), (qint64)r.uniform(21), r.weighted({ 52, 13, 13, 8, 7, 7 }) }, {}, salt));
                 break;
             case 1:
                 p.ops.append(mkop(QStringLiteral("dl"), { 1 }, {}, salt));
@@ -203,6 +203,23 @@ public:
                             break;
                         case 14:
                             wr.outerFrom = domain;
+                            break;
+                        case 16: case 17: case 18: {
+                            // same length, same localpart, same domain: only the separator differs (the bare address of a
+                            // server at a look-alike domain, or a resource of it)
+                            static const char seps[] = { '-', '.', '/' };
+                            wr.outerFrom = local + QLatin1Char(seps[op.arg(1) - 16]) + domain;
+                            break;
+                        }
+                        case 19:
+                            // one character of the domain altered, length kept
+                            wr.outerFrom = bare;
+                            wr.outerFrom[wr.outerFrom.size() - 2] = wr.outerFrom[wr.outerFrom.size() - 2] == QLatin1Char('x') ? QLatin1Char('y') : QLatin1Char('x');
+                            break;
+                        case 20:
+                            // one character of the localpart altered, length kept
+                            wr.outerFrom = bare;
+                            wr.outerFrom[0] = wr.outerFrom[0] == QLatin1Char('x') ? QLatin1Char('y') : QLatin1Char('x');
                             break;
                         default:
                             // case variant of the own bare address: "don't care"
